@@ -2,7 +2,7 @@ SPECIFICATION FairSpec
 CONSTANTS
   Sess = {1}
   MaxcSet = {1}
-  MaxBytes = 2
+  MaxBytes = 3
   Dev = "none"
 PROPERTIES Ends
 CHECK_DEADLOCK FALSE
